@@ -50,7 +50,7 @@ def sim_for(case, mode):
     if mode.get('api'):
         sim['api'] = mode['api']
         sim['tiling'] = mode['tiling']
-    for k in ('faults', 'worker_faults', 'crash', 'trace', 'real_pool'):
+    for k in ('faults', 'worker_faults', 'crash', 'trace', 'real_pool', 'fsize'):
         if mode.get(k) is not None:
             sim[k] = mode[k]
     return sim
